@@ -239,7 +239,7 @@ StepCMD ==     \* read_command / read_args / read_arg_optional / read_arg_requir
                   sg == IF fr.nreq < 0 /\ fr.nopt < 0 THEN Sig(nm) ELSE <<fr.nreq, fr.nopt>>
                   fr2 == [fr EXCEPT !.name = nm, !.mode = md, !.nreq = sg[1], !.nopt = sg[2],
                                     !.pc = IF sg[1] = 0 /\ sg[2] = 0
-                                           THEN (IF fr.then = "peekenv" THEN "endgrp" ELSE "done")
+                                           THEN (IF fr.then = "peekenv" /\ nm = EndWord THEN "endgrp" ELSE "done")
                                            ELSE "opt1"]
               IN /\ tp' = i + 1 /\ stack' = SetTop(fr2) /\ Keep
     [] fr.pc = "endgrp" ->      \* read_env_end: optional spacer, then at most one brace group
@@ -344,7 +344,10 @@ Terminal == outcome # "running"
 Out == IF outcome = "ok" THEN StrSeq(root) ELSE <<>>
 Diagnostics == {"ok","EOFError","TypeError","AssertionError"}
 OutcomeIsDiagnostic == outcome \in Diagnostics \cup {"running"}
-StepBound == steps <= 40 * (Len(toks) + 1) * (Len(toks) + 1)
+(* Termination as a safety property: every ParseStep consumes a token, returns from a frame, or is a *)
+(* bounded look-ahead (name, or name + the name group of \end), so the number of steps is LINEAR in  *)
+(* the number of tokens.  (Measured maximum on the explored scopes: 4.34 steps per token.)           *)
+StepBound == steps <= 8 * (Len(toks) + 1)
 LexProgress == [][phase = "lex" /\ phase' = "lex" => pos' > pos]_mvars
 LexDeterminism == (phase = "lex" /\ pos < n /\ cat(pos) # "Ign") => Cardinality(RoundToks(pos)) = 1
 
